@@ -295,6 +295,36 @@ func Exec(s *Spec) *Result {
 	return res
 }
 
+// sideRead calls the read accessors on an entry that is reachable from a tree
+// without being one of its nodes (it may have no parent, and its root may be
+// a grouping, an augment or a deviation rather than a module).
+func sideRead(sb *strings.Builder, what string, x *yang.Entry, arg string) {
+	if x == nil {
+		return
+	}
+	fmt.Fprintf(sb, "  %s %s: path=%s ro=%v errors=%d", what, x.Name, x.Path(), x.ReadOnly(), len(x.GetErrors()))
+	if ns := x.Namespace(); ns != nil {
+		fmt.Fprintf(sb, " ns=%s", ns.Name)
+	}
+	if im, err := x.InstantiatingModule(); err == nil {
+		fmt.Fprintf(sb, " inst=%s", im)
+	}
+	if _, ok := x.SingleDefaultValue(); ok {
+		sb.WriteString(" dv")
+	}
+	for _, p := range []string{arg, x.Path(), "/" + x.Name, ".."} {
+		if p == "" {
+			continue
+		}
+		if f := x.Find(p); f != nil {
+			fmt.Fprintf(sb, " find(%s)=%s", p, f.Path())
+		}
+	}
+	var pb strings.Builder
+	x.Print(&pb)
+	fmt.Fprintf(sb, " print=%d\n", pb.Len())
+}
+
 // Query exercises the read API on whatever trees exist and renders the
 // results; used by histories (C01, C18) to check that reads neither crash nor
 // change later results.
@@ -324,6 +354,25 @@ func Query(ms *yang.Modules, arg string) string {
 				fmt.Fprintf(&sb, " dv=%q", dv)
 			}
 			sb.WriteString("\n")
+			// entries the tree exposes besides its children: the grouping entries
+			// kept with StoreUses, the augments merged into e, the deviations a
+			// module entry lists
+			for _, u := range e.Uses {
+				if u != nil {
+					sideRead(&sb, "uses-grouping", u.Grouping, arg)
+				}
+			}
+			for _, a := range e.Augmented {
+				sideRead(&sb, "augmented", a, arg)
+			}
+			for _, a := range e.Augments {
+				sideRead(&sb, "augments", a, arg)
+			}
+			for _, d := range e.Deviations {
+				if d != nil {
+					sideRead(&sb, "deviation "+d.DeviatedPath, d.Entry, arg)
+				}
+			}
 			if f := e.Find(e.Path()); f != nil && f != e && depth > 0 {
 				// absolute lookup of an unprefixed path is relative to e; not an error
 			}
